@@ -245,6 +245,26 @@ def run(pid, tier):
         st = _monitor_selftest(steps_file, configs, d)
         cov["legs"]["monitor_selftest"] = {"altered_recordings_rejected": st}
 
+    # ---- reply labelling: every secret the channel requests RETURN (revocation replies, their retries, the getters,
+    # the protocol-handler composites) is the tree element of the number the request names.  Judged by TLC on the
+    # implementation state graph of the channel component (ImplChannel.tla SecMislabel).
+    import chan
+    cbin = vlib.build("chan")
+    lab = 0
+    for ex in (chan.extract(cbin, 4 if quick else 6, "full", "holder", "ready"), chan.extract_handler(1 if quick else 3)):
+        rl = chan.impl_tlc(ex, "none", [], workers=4)
+        bad = rl["report"].get("sec_mislabel", [])
+        lab += sum(1 for _ in open(ex["nodes"]))
+        for b in bad[:50]:
+            key = "C18s:%s(%+d):secret-of-another-number" % (b["req"]["op"], b["req"].get("n", 0) - b["pre"]["nh"])
+            if not any(v["key"] == key for v in violations):
+                violations.append({"key": key, "what": "%s for number %s (next holder number %s) returned the secret of number %s, "
+                                   "the request names number %s" % (b["req"]["op"], b["req"].get("n"), b["pre"]["nh"],
+                                                                    b["resp"]["sec"], b["expected"]["resp"]["sec"]),
+                                   "replay": {"kind": "chan-edge", "pre": b["pre"], "req": b["req"], "resp": b["resp"],
+                                              "expected": b["expected"]["resp"]}})
+    cov["legs"]["reply_labelling"] = {"channel_graph_states_examined": lab, "mislabelled_replies": sum(1 for v in violations if v["key"].startswith("C18s"))}
+
     code, unknown, known = vlib.verdict(pid, violations)
     if divergences:
         log("[%s] NOTE: %d implementation steps are not steps of Keys.tla (specification needs updating; "
@@ -281,6 +301,9 @@ def replay(pid, obj):
     """Re-run a recorded violating history (plus the plainest histories of the same ids) on the real
     implementation and let TLC judge."""
     rp = obj["replay"]
+    if rp.get("kind") == "chan-edge":
+        print("replay of a single channel-graph edge: re-run ./check %s (the edge is re-derived by the exploration)" % pid)
+        return run(pid, "quick")
     binpath = vlib.build("keys")
     d = vlib.workdir("keys-replay")
     doc = keys.cases("scripts", "quick", 2, rp["nmax"], "life", os.path.join(d, "scripts.json"))
